@@ -2497,3 +2497,64 @@ func ruleHistoricResolvesHistoric(c *Ctx) {
 	}
 	c.Floor("RPC helpers with an optional state root", n, 1)
 }
+
+// ---------------------------------------------------------------------------
+// publish-atomic (C04, C02, C09): storeBlock hands the two private layers of a block - the block with its application
+// logs and height pointer, and the state changes with MPT nodes and state root - to MemCachedStore.PersistPrivate in
+// one call; the flush goroutine is synchronised with it through the store's lock only. All layers given to one
+// PersistPrivate call are merged inside one critical section: the store's lock is taken before the loop over the
+// layers and released after it, never per layer - a flush landing between two layers would write "transaction HALTed"
+// without any of its effects.
+func rulePublishAtomic(c *Ctx) {
+	fd := c.P.Func("pkg/core/storage", "MemCachedStore", "PersistPrivate")
+	if fd == nil {
+		c.Lost("publish-atomic.anchor", "MemCachedStore.PersistPrivate not found")
+		return
+	}
+	f := c.P.NewFuncCFG(fd)
+	var loop *ast.RangeStmt
+	mergeSites := f.CallSites("pkg/core/storage.(*MemoryStore).putChangeSet")
+	ast.Inspect(fd.Decl.Body, func(x ast.Node) bool {
+		if rs, ok := x.(*ast.RangeStmt); ok && loop == nil {
+			if _, ok := f.Info.TypeOf(rs.X).Underlying().(*types.Slice); ok && f.DirectMentions(rs.X)["param#0"] {
+				for _, st := range mergeSites {
+					if containsNode(rs, st.call) {
+						loop = rs
+					}
+				}
+			}
+		}
+		return true
+	})
+	if loop == nil {
+		c.Lost("publish-atomic.loop", "the loop over the private layers was not found in PersistPrivate")
+		return
+	}
+	merges := 0
+	for _, st := range f.CallSites("pkg/core/storage.(*MemoryStore).putChangeSet") {
+		if containsNode(loop, st.call) {
+			merges++
+		}
+	}
+	var lockIn, lockOut, unlockIn int
+	for _, st := range f.CallSites("pkg/core/storage.(*MemCachedStore).lock", "sync.(*RWMutex).Lock") {
+		if containsNode(loop, st.call) {
+			lockIn++
+		} else if st.call.Pos() < loop.Pos() {
+			lockOut++
+		}
+	}
+	for _, st := range f.CallSites("pkg/core/storage.(*MemCachedStore).unlock", "sync.(*RWMutex).Unlock") {
+		if containsNode(loop, st.call) {
+			unlockIn++
+		}
+	}
+	switch {
+	case merges == 0:
+		c.Lost("publish-atomic.merge", "no putChangeSet call inside the loop over the private layers")
+	case lockIn > 0 || unlockIn > 0 || lockOut == 0:
+		c.Fail("publish-atomic.PersistPrivate", c.P.Pos(loop.Pos()), "MemCachedStore.PersistPrivate takes or releases the store's lock inside the loop over the private layers: the layers of one block (block + logs + height pointer; state changes + MPT + state root) are published in separate critical sections, and a flush between them persists a block whose halted transactions have no effects")
+	default:
+		c.OK("publish-atomic.PersistPrivate", c.P.Pos(loop.Pos()), "all layers of one call are merged inside one critical section")
+	}
+}
